@@ -9,7 +9,7 @@ import random
 BOUNDARY_INTS = [0, 1, -1, 2, 127, 128, -128, -129, 255, 256, 257, 32767, 32768, -32768, -32769, 65535, 65536, 65537,
                  2 ** 31 - 1, 2 ** 31, -2 ** 31, 2 ** 32 - 1, 2 ** 32, 2 ** 63 - 1, 2 ** 63, -2 ** 63, 2 ** 64 - 1, 2 ** 64,
                  -2 ** 63 - 1, 2 ** 70]
-RANGE_WIDTHS = [1, 2, 3, 7, 8, 15, 16, 255, 256, 257, 65535, 65536, 65537, 2 ** 32, 2 ** 32 + 1, 2 ** 64]
+RANGE_WIDTHS = [1, 2, 3, 7, 8, 15, 16, 255, 256, 257, 65535, 65536, 65537, 2 ** 32, 2 ** 32 + 1, 2 ** 63, 2 ** 64, 2 ** 64 + 1, 2 ** 72]
 STR_KINDS = {'IA5String': 'ia5', 'VisibleString': 'visible', 'NumericString': 'numeric',
              'PrintableString': 'printable', 'UTF8String': 'utf8'}
 ALPHABETS = {
@@ -596,8 +596,14 @@ def _type_text(t, ind, ctx):
     raise ValueError(k)
 
 
+def tag_text(tag):
+    """tag = (class, number, mode) with class in ('', 'APPLICATION', 'PRIVATE', 'UNIVERSAL'), mode in ('', 'IMPLICIT', 'EXPLICIT')"""
+    cls, num, mode = tag
+    return '[%s%d] %s' % (cls + ' ' if cls else '', num, mode + ' ' if mode else '')
+
+
 def member_text(m, ind, ctx=None):
-    s = '%s %s' % (m['name'], type_text(m['t'], ind, ctx, member_pos=True))
+    s = '%s %s%s' % (m['name'], tag_text(m['tag']) if m.get('tag') else '', type_text(m['t'], ind, ctx, member_pos=True))
     if m['opt']:
         s += ' OPTIONAL'
     elif m['default'] is not None:
@@ -841,7 +847,8 @@ def boundary_cases(rng):
     for w in RANGE_WIDTHS:
         for lo in (0, -1, 5, -2 ** 31):
             t = intt(lo, lo + w - 1)
-            out.append((t, [lo, lo + w - 1, lo + (w - 1) // 2]))
+            inner = [lo + d for d in (127, 128, 255, 256, 32767, 32768, 65535, 2 ** 31, 2 ** 32 - 1, 2 ** 63 - 1, 2 ** 63, 2 ** 64 - 1) if d < w]
+            out.append((t, [lo, lo + w - 1, lo + (w - 1) // 2] + [x for x in (0, 200, -1, -129, 2 ** 63 + 1) if lo <= x < lo + w][:2] + inner[-3:]))
             out.append((intt(lo, lo + w - 1, True), [lo, lo + w - 1, lo - 1, lo + w, lo + w + 70000]))
     for kind in ('octs', 'bits'):
         for size in (None, (0, 127, False), (0, 128, False), (1, 255, False), (0, 256, False), (3, 3, False), (0, 65535, False), (0, 65536, False), (1, 4, True), (17, 17, False)):
